@@ -91,10 +91,14 @@ class Machine(object):
         focus = rng.random()
         curve_focus = rng.choice(CURVES) if focus < 0.45 else None      # several threads racing on the first use of one curve
         programs = []
+        # several threads making the first use of ONE kind of operation in this process (module-level data built lazily)
+        kind_focus = rng.choice(OP_KINDS) if focus > 0.88 else None
         for t in range(nt):
             ops = []
-            for _ in range(rng.randrange(1, 4)):
+            for j in range(rng.randrange(1, 4)):
                 k = rng.choice(OP_KINDS)
+                if kind_focus and j == 0:
+                    k = kind_focus
                 if curve_focus and rng.random() < 0.7:
                     k = rng.choice(["ec", "ecdsa", "eddsa", "ecdh", "import_key", "point_ops", "generate"])
                 if rng.random() < 0.002:
